@@ -96,6 +96,9 @@ func c06report(c *runner.Ctx, ec *echoCfg, res *echoResult) {
 		so.mu.Unlock()
 		c.Add("observer_streams_without_end_after_connection_loss", int64(open))
 	}
+	for _, s := range echoDesync(res) {
+		c.Violation("C06:response-stream-out-of-step", s, wit)
+	}
 	for _, s := range res.recvStalls {
 		c.Violation("C06:receive-loop-stalled", "responses the node sent are never read, so their requests cannot end with them: "+s, wit)
 	}
